@@ -2,3 +2,4 @@ import ArimProofs.C01
 import ArimProofs.C13
 import ArimProofs.C15
 import ArimProofs.C20
+import ArimProofs.C18
